@@ -41,6 +41,12 @@ def gen_config(rng, want_cycle):
         for u in ts:
             if "uses" in u:
                 u["uses"] = [x + "/" if x == bare and rng.chance(1, 2) else x for x in u["uses"]]
+    # `ignores` say which changes a target disregards; they take no part in the dependency relation,
+    # not even when they cover one of the target's own `uses` entries
+    for t in ts:
+        if t.get("uses") and rng.chance(1, 3):
+            u = rng.pick(t["uses"])
+            t["ignores"] = [u.rsplit("/", 1)[0] if "/" in u and rng.chance(1, 2) else u]
     if not want_cycle:
         return ts if is_acyclic(ts) else rungen.gen_acyclic_targets(rng, 2, 6)
     if rng.chance(1, 4):
@@ -165,7 +171,7 @@ class Walk:
         self.stop = False
 
     def model_groups(self, visible):
-        r = self.model.ask({"op": "groups", "targets": [{"path": t["path"], "uses": t.get("uses", []), "ignores": []} for t in self.ts],
+        r = self.model.ask({"op": "groups", "targets": [{"path": t["path"], "uses": t.get("uses", []), "ignores": t.get("ignores", [])} for t in self.ts],
                             "visible": visible})
         return r["model"]
 
@@ -178,7 +184,7 @@ class Walk:
         else:
             self.rep.count("foreign_" + prop)
 
-    def check(self, api, args, requested, roots, groups_of, repo, is_run=False):
+    def check(self, api, args, requested, roots, groups_of, repo, is_run=False, may_fail=False):
         """requested: node set the groups must partition (None: whatever the API reports as changed);
         roots: nodes whose reachable cycle forces rejection"""
         if self.stop:
@@ -208,7 +214,7 @@ class Walk:
             if "err" not in m:
                 self.rep.disagree({"kind": "the model accepts a configuration the documented relation calls cyclic", "case": self.case})
             return
-        if rc != 0 or j is None:
+        if (rc != 0 and not (may_fail and rc == 1 and j is not None)) or j is None:
             if is_cycle_error(rc, err):
                 self.fail("C03", "acyclic_rejected", {"api": api, "rc": rc, "stderr": err[-400:]})
             else:
@@ -251,6 +257,14 @@ class Walk:
         nameable = [i for i in range(n) if " " not in self.paths[i]]   # -t splits its values on spaces
         if not nameable:
             return
+        if self.rng.chance(1, 3):
+            # two commands, the first one failing for one target: the groups reported for the command
+            # that is skipped are still the layering of the requested targets
+            victim = self.rng.pick(self.paths)
+            repo.set_plan({"build|%s" % strip(victim): {"exit": 3}})
+            self.check("run_two_commands", ["run", "-c", "build", "test"], changed, allr,
+                       lambda j: [[sorted(g.keys()) for g in r["target_groups"]] for r in j["results"]], repo, is_run=True, may_fail=True)
+            repo.set_plan({})
         k = self.rng.range(1, min(3, len(nameable)))
         roots = sorted(set(self.rng.pick(nameable) for _ in range(k)))
         clo = sorted(reach(self.adj, roots))
